@@ -19,14 +19,22 @@ pub struct Case {
     /// 0: weights 0..=3 (many ties), 1: -4..=9, 2: 0..=40
     pub wmode: u8,
     pub float: bool,
+    /// with float weights: every self-loop carries NaN and one more NaN self-loop is inserted at a
+    /// salt-chosen position of the edge list (a self-loop is never a forest edge, so the minimum
+    /// stays well defined; `MinScored` documents that NaN scores order last)
+    #[serde(default)]
+    pub nan: bool,
 }
 
 pub fn strategy(tier: Tier) -> BoxedStrategy<Case> {
     let (maxn, maxm) = if tier == Tier::Quick { (9, 22) } else { (16, 50) };
-    (raw_graph(0, maxn, maxm, None), any::<u8>(), any::<u8>(), 0u8..3, any::<bool>())
-        .prop_map(|(g, enc, salt, wmode, float)| Case { g, enc, salt, wmode, float })
+    (raw_graph(0, maxn, maxm, None), any::<u8>(), any::<u8>(), 0u8..3, any::<bool>(), 0u8..4)
+        .prop_map(|(g, enc, salt, wmode, float, nan)| Case { g, enc, salt, wmode, float, nan: float && nan == 0 })
         .boxed()
 }
+
+/// abstract weight standing for NaN in the float encodings
+const NAN_MARK: i32 = 1000;
 
 fn opts(wmode: u8) -> GOpts {
     match wmode % 3 {
@@ -53,7 +61,11 @@ impl W for i32 {
 }
 impl W for f64 {
     fn of(w: i32) -> Self {
-        w as f64 * 0.25
+        if w == NAN_MARK {
+            f64::NAN
+        } else {
+            w as f64 * 0.25
+        }
     }
     fn back(&self) -> i64 {
         (*self * 4.0) as i64
@@ -97,6 +109,32 @@ fn msf_weight(a: &AGraph, inside: &[bool]) -> (i64, usize) {
                 }
                 None => break,
             }
+        }
+    }
+    (total, count)
+}
+
+/// Sort-based Kruskal with a naive (path-halving, no rank) union-find of its own: the oracle for
+/// graphs too large for `msf_weight`; cross-checked against it on every small graph.
+fn msf_sorted(a: &AGraph) -> (i64, usize) {
+    let mut idx: Vec<usize> = (0..a.m()).collect();
+    idx.sort_by_key(|&i| a.edges[i].2);
+    let mut parent: Vec<usize> = (0..a.n).collect();
+    fn find(p: &mut [usize], mut x: usize) -> usize {
+        while p[x] != x {
+            p[x] = p[p[x]];
+            x = p[x];
+        }
+        x
+    }
+    let (mut total, mut count) = (0i64, 0usize);
+    for i in idx {
+        let (u, v, w) = a.edges[i];
+        let (ru, rv) = (find(&mut parent, u), find(&mut parent, v));
+        if ru != rv {
+            parent[ru] = rv;
+            total += w as i64;
+            count += 1;
         }
     }
     (total, count)
@@ -201,7 +239,13 @@ where
     // expected node order = node_references order
     let order: Vec<usize> = g.node_references().map(|r| v.label(r.id(), "node_references")).collect::<Result<_, _>>()?;
     let all = vec![true; n];
-    let (best, forest_edges) = msf_weight(a, &all);
+    let (best, forest_edges) = if n <= 40 {
+        let r = msf_weight(a, &all);
+        ensure_eq!(msf_sorted(a), r, "C12/oracle-self-check", "naive Prim vs sort-based Kruskal oracle");
+        r
+    } else {
+        msf_sorted(a)
+    };
     let (_, ncomp) = a.wcc_ids();
     ensure_eq!(forest_edges, n - ncomp, "C12/oracle-self-check", "oracle forest size");
     if let Some(b) = msf_brute(a) {
@@ -240,7 +284,7 @@ where
             let (ids, _) = a.wcc_ids();
             let inside: Vec<bool> = (0..n).map(|l| ids[l] == ids[first]).collect();
             let size = inside.iter().filter(|&&b| b).count();
-            let (best1, _) = msf_weight(a, &inside);
+            let (best1, _) = if size == n { (best, 0) } else { msf_weight(a, &inside) };
             ensure_eq!(edges.len(), size - 1, "C12/prim-edge-count", "min_spanning_tree_prim: number of edges (first component has {size} nodes)");
             for l in 0..n {
                 ensure_eq!(comp[l] == comp[first], inside[l], "C12/prim-span", "min_spanning_tree_prim: node {l} connected to the first node");
@@ -261,10 +305,21 @@ where
 }
 
 pub fn run(c: &Case) -> Outcome {
-    let a0 = c.g.build(&opts(c.wmode));
+    let mut a0 = c.g.build(&opts(c.wmode));
     let n = a0.n;
     let mut obs = Obs::default();
     let enc = c.enc % 6;
+    if c.float && c.nan && n > 0 {
+        for e in a0.edges.iter_mut() {
+            if e.0 == e.1 {
+                e.2 = NAN_MARK;
+            }
+        }
+        let at = c.salt as usize % (a0.edges.len() + 1);
+        let v = (c.salt as usize / 7) % n;
+        a0.edges.insert(at, (v, v, NAN_MARK));
+        obs.label("NaN self-loops");
+    }
     let simple = super::c10::simplified_min(&a0);
     let a = if enc >= 2 { &simple } else { &a0 };
     let salt = c.salt as u64 + 1;
@@ -333,12 +388,99 @@ pub fn run(c: &Case) -> Outcome {
     Ok(obs)
 }
 
+// ---------------------------------------------------------------------------------------------
+// large graphs: union-find ranks, heap sizes and node_bound-sized tables beyond 256 elements
+
+#[derive(Debug, Clone, Serialize, Deserialize)]
+pub struct BigCase {
+    /// 0 star (centre is the source of every spoke), 1 star (centre is the target), 2 path with
+    /// increasing weights, 3 path with decreasing weights, 4 random recursive tree, 5 caterpillar
+    pub kind: u8,
+    pub n: u16,
+    pub seed: u32,
+    /// extra edges (endpoints mapped into 0..n), weights 0..=255
+    pub extra: Vec<(u16, u16, u8)>,
+    pub directed: bool,
+    pub stable: bool,
+    pub salt: u8,
+}
+
+pub fn big_strategy(tier: Tier) -> BoxedStrategy<BigCase> {
+    let maxn: u16 = if tier == Tier::Quick { 420 } else { 900 };
+    (0u8..6, 2u16..=maxn, any::<u32>(), proptest::collection::vec((any::<u16>(), any::<u16>(), any::<u8>()), 0..60), any::<bool>(), any::<bool>(), any::<u8>())
+        .prop_map(|(kind, n, seed, extra, directed, stable, salt)| BigCase { kind, n, seed, extra, directed, stable, salt })
+        .boxed()
+}
+
+pub fn run_big(c: &BigCase) -> Outcome {
+    let n = c.n as usize;
+    let mut x = c.seed as u64 | 1 << 40;
+    let mut rnd = move || {
+        x ^= x << 13;
+        x ^= x >> 7;
+        x ^= x << 17;
+        x
+    };
+    let mut edges: Vec<(usize, usize, i32)> = Vec::new();
+    for i in 1..n {
+        let w = (rnd() % 50) as i32;
+        match c.kind % 6 {
+            0 => edges.push((0, i, w)),
+            1 => edges.push((i, 0, w)),
+            2 => edges.push((i - 1, i, i as i32)),
+            3 => edges.push((i - 1, i, (n - i) as i32)),
+            4 => edges.push(((rnd() % i as u64) as usize, i, w)),
+            _ => {
+                // caterpillar: a spine of every third node, legs hanging off it
+                if i % 3 == 0 {
+                    edges.push((i - 3.min(i), i, w))
+                } else {
+                    edges.push((i - i % 3, i, w))
+                }
+            }
+        }
+    }
+    for &(p, q, w) in &c.extra {
+        edges.push((p as usize * n >> 16, q as usize * n >> 16, w as i32));
+    }
+    let a = AGraph { directed: c.directed, n, edges };
+    let mut obs = Obs::default();
+    let salt = c.salt as u64 + 1;
+    match (c.stable, c.directed) {
+        (false, true) => {
+            let g: Graph<usize, i32, Directed, u16> = to_graph(&a, |w| w);
+            check(&g, &View::full(&a, (0..n).map(NodeIndex::new)), false, |l: &usize| *l, &mut obs)?;
+        }
+        (false, false) => {
+            let g: Graph<usize, i32, Undirected, u32> = to_graph(&a, |w| w);
+            check(&g, &View::full(&a, (0..n).map(NodeIndex::new)), true, |l: &usize| *l, &mut obs)?;
+        }
+        (true, true) => {
+            let (g, map) = to_stable_holes::<i32, Directed, u32>(&a, salt, |w| w);
+            check(&g, &View::full(&a, map), false, |l: &usize| *l, &mut obs)?;
+        }
+        (true, false) => {
+            let (g, map) = to_stable_holes::<i32, Undirected, u16>(&a, salt, |w| w);
+            check(&g, &View::full(&a, map), true, |l: &usize| *l, &mut obs)?;
+        }
+    }
+    obs.label(match c.kind % 6 {
+        0 | 1 => "star",
+        2 | 3 => "path",
+        4 => "random recursive tree",
+        _ => "caterpillar",
+    });
+    obs.label_if(n > 256, "more than 256 nodes");
+    obs.nontrivial = n > 256;
+    Ok(obs)
+}
+
 pub fn property() -> Property {
     Property {
         id: "C12",
-        rule: "random weighted multigraphs with loops and many equal weights (0..=9 nodes quick, 1-4 components, three weight ranges, i32 and exact f64) in Graph / StableGraph+MatrixGraph with vacancies / GraphMap / Csr; the element stream is checked structurally (nodes first in node_references order, every edge a distinct edge of the graph with that weight, acyclic, |V|-c edges) and its total weight compared with a naive Prim oracle that is itself cross-checked by exhaustive subset enumeration when m<=11; Prim checked on undirected storage for the first node's component; from_elements result compared with the stream; non-trivial = >=2 components (n>=3) or at least one non-tree edge; distinct by case fingerprint",
+        rule: "random weighted multigraphs with loops and many equal weights (0..=9 nodes quick, 1-4 components, three weight ranges, i32 and exact f64) in Graph / StableGraph+MatrixGraph with vacancies / GraphMap / Csr; the element stream is checked structurally (nodes first in node_references order, every edge a distinct edge of the graph with that weight, acyclic, |V|-c edges) and its total weight compared with a naive Prim oracle that is itself cross-checked by exhaustive subset enumeration when m<=11; Prim checked on undirected storage for the first node's component; from_elements result compared with the stream; with f64 weights a quarter of the cases put NaN on every self-loop (never a forest edge) to exercise MinScored's NaN ordering in the heaps; non-trivial = >=2 components (n>=3) or at least one non-tree edge; sub-check mst/large: stars, paths, random trees and caterpillars of 2..=420 nodes (900 thorough) plus up to 60 random extra edges in Graph/StableGraph, oracle = sort-based Kruskal with its own union-find, non-trivial = more than 256 nodes; distinct by case fingerprint",
         assumptions: &["float weights are multiples of 0.25 (exact sums)"],
         both_profiles: false,
-        subs: vec![sub("mst/kruskal+prim", 150_000, 4_000_000, strategy, run)],
+        subs: vec![sub("mst/kruskal+prim", 150_000, 4_000_000, strategy, run), sub("mst/large", 3_000, 100_000, big_strategy, run_big)],
     }
 }
